@@ -132,9 +132,17 @@ def size_obligations(prog):
                 continue
             c = strip(b.cond)
             neg = False
-            while kind(c) == "un" and c[1] == "!":
-                c = strip(c[2])
-                neg = not neg
+            for _ in range(4):
+                while kind(c) == "un" and c[1] == "!":
+                    c = strip(c[2])
+                    neg = not neg
+                if kind(c) != "var":
+                    break
+                # `fits = (*size >= total); ...; if (!fits)`: a flag with a single definition stands for its comparison
+                ds = [rhs for el in f.elems() for (n, op_, rhs, via) in defs_in_elem(el.e) if n == c[1]]
+                if len(ds) != 1 or ds[0] is None:
+                    break
+                c = strip(ds[0])
             if kind(c) == "bin" and c[1] in ("<", "<=", ">", ">=") and (is_len(c[2]) or is_len(c[3])):
                 op, L, R = c[1], c[2], c[3]
                 if is_len(R):
@@ -180,7 +188,9 @@ def size_obligations(prog):
                         continue
                     sb = f.blocks[s]
                     has_ret0 = any(e2.top and kind(e2.e) == "return" and is_int(e2.e[1], 0) for e2 in sb.elems)
-                    st = [x for e2 in sb.elems if e2.top for x in walk(e2.e) if x[0] == "assign" and x[1] == "=" and is_len(x[2])]
+                    # stores in the rejecting block itself, or in a block that dominates it (size reported before the test)
+                    doms = f.dominators().get(s, {s})
+                    st = [x for d_ in doms for e2 in f.blocks[d_].elems if e2.top for x in walk(e2.e) if x[0] == "assign" and x[1] == "=" and is_len(x[2])]
                     if has_ret0:
                         l1 = lin(_resolve(f, E1), av)
                         rep_ok = any(not lin(_resolve(f, x[3]), av).add(l1, -1).a and lin(_resolve(f, x[3]), av).add(l1, -1).c == 0 for x in st)
